@@ -63,8 +63,7 @@ def regenerate_and_build(ctx: Ctx):
         if not clean:
             ctx.broken.append("coqchk does not re-check the closure of Props/C15.vo cleanly: %s" % out[-400:])
     ctx.cov["model_files"] = ["Model/Expr.v", "Model/ExprParse.v", "Model/Doc.v", "gen/MathGrammar.v"]
-    ctx.cov["refuted"] = {"C15_apply_spec_refuted": 'document {"{{ 1 + 1 }}": {"a": 1}}, no variables: apply keeps the key, '
-                                                      "the property's reading replaces it by 2"}
+    ctx.cov["refuted"] = {}
     return (ctx.coq / "theories/Model/Doc.vo").exists()
 
 
@@ -195,14 +194,14 @@ def expression_stage(ctx: Ctx, n_cases: int, n_negative: int, coq_ok: bool):
 
 
 # ------------------------------------------------------------------------------------------- stage 3b: documents
-def document_stage(ctx: Ctx, n_docs: int, coq_ok: bool, known_entries):
+def document_stage(ctx: Ctx, n_docs: int, coq_ok: bool):
     rng = random.Random(ctx.seed + 1515)
     stats = {}
     placed = collections.Counter()
     shards, shard_infos = {}, {}
     rows, infos = [], []
     interner = H.Interner()
-    findings, known_hits = [], 0
+    findings = []
     hist = collections.Counter()
     samples = []
     distinct = set()
@@ -216,6 +215,16 @@ def document_stage(ctx: Ctx, n_docs: int, coq_ok: bool, known_entries):
         rows, infos, interner = [], [], H.Interner()
 
     t0 = time.time()
+    # ---- regression case first: the witness of the finding fixed by e5276b7
+    reg = H.real_apply(copy.deepcopy(H.REGRESSION_DOC), {})
+    if reg[0] != "val" or H.canon(reg[1]) != H.canon(H.REGRESSION_EXPECTED):
+        findings.append({"what": "ArithmeticPatch.apply differs from 'every {{ expression }} replaced by its value' "
+                                 "(regression of the defect fixed by e5276b7: a '{{ }}' key in front of a dict or list)",
+                         "document": H.jsafe(H.REGRESSION_DOC), "variables": {},
+                         "expected": repr(H.REGRESSION_EXPECTED), "observed": repr(reg[1])})
+    rows.append((0, H.coq_doc(H.REGRESSION_DOC, interner, H.REGRESSION_EXPRS),
+                 None if reg[0] == "err" else H.coq_doc(reg[1], interner, H.REGRESSION_EXPRS, as_output=True)))
+    infos.append({"document": H.jsafe(H.REGRESSION_DOC), "variables": {}, "implementation": H.jsafe(list(reg)), "regression": "e5276b7"})
     for _ in range(n_docs):
         ei = rng.randrange(len(H.ENVS))
         env = H.ENVS[ei]
@@ -229,6 +238,8 @@ def document_stage(ctx: Ctx, n_docs: int, coq_ok: bool, known_entries):
                              "expected": before, "observed": repr(doc)})
             doc = eval(before)  # noqa: S307 - our own repr of plain data
         hist["result:" + ("document" if real[0] == "val" else "error:" + str(real[1]))] += 1
+        if H.has_expr_key_before_container(doc, g.exprs):
+            hist["documents with a '{{ }}' key in front of a dict/list"] += 1
         distinct.add(before)
         rows.append((ei, H.coq_doc(doc, interner, g.exprs), None if real[0] == "err" else H.coq_doc(real[1], interner, g.exprs, as_output=True)))
         infos.append({"document": H.jsafe(doc), "variables": env, "implementation": H.jsafe(list(real))})
@@ -236,28 +247,21 @@ def document_stage(ctx: Ctx, n_docs: int, coq_ok: bool, known_entries):
             flush()
         if len(samples) < 2 and g.placed["key"] and g.placed["element"] and g.placed["zero"] and real[0] == "val":
             samples.append({"document": H.jsafe(doc), "variables": env, "apply": H.jsafe(real[1])})
-        # ---- implementation-side search: the property's reading with the reference evaluator
-        def reading(d, everywhere):
+        # ---- implementation-side search: the property's statement with the reference evaluator
+        def reading(d):
             try:
-                return ("val", H.canon(H.reading_py(d, env, g.exprs, everywhere)))
+                return ("val", H.canon(H.reading_py(d, env, g.exprs)))
             except H.RefError as e:
                 return ("err", str(e))
         def outcome(d):
             r = H.real_apply(copy.deepcopy(d), env)
             return ("val", H.canon(r[1])) if r[0] == "val" else r
         got = ("val", H.canon(real[1])) if real[0] == "val" else real
-        ideal = reading(doc, True)
-        if got != ideal:
-            coded = reading(doc, False)
-            if got == coded and H.has_expr_key_before_container(doc, g.exprs) and known_entries:
-                known_hits += 1
-                hist["known-finding:key-before-container"] += 1
-            else:
-                small = H.shrink_doc(doc, lambda d: outcome(d) != reading(d, True) and not (
-                    outcome(d) == reading(d, False) and H.has_expr_key_before_container(d, g.exprs)))
-                findings.append({"what": "ArithmeticPatch.apply differs from 'every {{ expression }} replaced by its value'",
-                                 "document": H.jsafe(small), "variables": env,
-                                 "expected": repr(reading(small, True)), "observed": repr(outcome(small))})
+        if got != reading(doc):
+            small = H.shrink_doc(doc, lambda d: outcome(d) != reading(d)) if len(findings) < 5 else doc
+            findings.append({"what": "ArithmeticPatch.apply differs from 'every {{ expression }} replaced by its value'",
+                             "document": H.jsafe(small), "variables": env,
+                             "expected": repr(reading(small)), "observed": repr(outcome(small))})
     flush()
     ctx.log("documents: %d generated and applied in %.1fs" % (n_docs, time.time() - t0))
     diffs = []
@@ -272,7 +276,7 @@ def document_stage(ctx: Ctx, n_docs: int, coq_ok: bool, known_entries):
                 continue
             for b in bad:
                 diffs.append(dict(shard_infos[name][b], model_vs_implementation="Coq arith_apply differs from ArithmeticPatch.apply"))
-    return {"docs": n_docs, "diffs": diffs, "findings": findings, "known_hits": known_hits, "placed": dict(placed),
+    return {"docs": n_docs + 1, "diffs": diffs, "findings": findings, "placed": dict(placed),
             "hist": hist, "samples": samples, "distinct": len(distinct), "stats": stats}
 
 
@@ -280,8 +284,7 @@ def document_stage(ctx: Ctx, n_docs: int, coq_ok: bool, known_entries):
 def replay_known(ctx: Ctx, entry):
     w = entry["witness"]
     real = H.real_apply(H.unjsafe(copy.deepcopy(w["document"])), w.get("variables", {}))
-    if real[0] == "val" and any(isinstance(k, str) and H.EXPR_RE.search(k) and isinstance(v, (dict, list))
-                               for k, v in real[1].items()):
+    if real[0] == "val" and any(H.EXPR_RE.search(x) for x in _strings(real[1])):
         ctx.known(entry, "witness %s still yields %s" % (json.dumps(w["document"]), json.dumps(H.jsafe(real[1]), default=str)))
         return True
     ctx.broken.append("known finding %s no longer reproduces on the implementation (the faithful model still has it): %r"
@@ -295,13 +298,11 @@ def run(ctx: Ctx) -> int:
     coq_ok = regenerate_and_build(ctx)
     known_entries = vf.open_known("C15")
     ex = expression_stage(ctx, 24000 if thorough else 1500, 2400 if thorough else 150, coq_ok)
-    dc = document_stage(ctx, 6000 if thorough else 350, coq_ok, known_entries)
+    dc = document_stage(ctx, 6000 if thorough else 350, coq_ok)
     for d in ex["diffs"][:20] + dc["diffs"][:20]:
         ctx.broken.append("model and implementation disagree: %s" % json.dumps(d, ensure_ascii=False, default=str)[:400])
     for e in known_entries:
         replay_known(ctx, e)
-    if dc["known_hits"] and known_entries:
-        ctx.log("documents: %d generated documents show the known finding %s" % (dc["known_hits"], known_entries[0]["id"]))
     t0 = time.time()
     store_findings, store_stats = H.shipped_specs(ctx, thorough)
     alias = [f for f in store_findings if f["what"].startswith("Spec.interpret returned the stored dict itself")]
@@ -317,7 +318,7 @@ def run(ctx: Ctx) -> int:
         # side (documents / expressions) the broken item is about
         rng = random.Random(ctx.seed + 151515)
         t1 = time.time()
-        docs_first = bool(dc["diffs"]) or any("known finding" in b for b in ctx.broken)
+        docs_first = bool(dc["diffs"])
         budget = 300 if thorough else 60
         while time.time() - t1 < budget and not findings:
             extra += 1
@@ -329,10 +330,10 @@ def run(ctx: Ctx) -> int:
                 real = H.real_apply(copy.deepcopy(doc), env)
                 got = ("val", H.canon(real[1])) if real[0] == "val" else real
                 try:
-                    ideal = ("val", H.canon(H.reading_py(doc, env, g.exprs, True)))
+                    ideal = ("val", H.canon(H.reading_py(doc, env, g.exprs)))
                 except H.RefError as e:
                     ideal = ("err", str(e))
-                if got != ideal and not H.has_expr_key_before_container(doc, g.exprs):
+                if got != ideal:
                     findings.append({"what": "ArithmeticPatch.apply differs from 'every {{ expression }} replaced by its value'",
                                      "document": H.jsafe(doc), "variables": env, "expected": repr(ideal), "observed": repr(got)})
                 continue
@@ -370,7 +371,6 @@ def run(ctx: Ctx) -> int:
                            "expressions_placed_in_documents": dc["placed"],
                            "input_histogram": dict(sorted(hist.items()))},
         "impl_search": {"reference_evaluator_cases": ex["ref_checked"] + extra, "documents_vs_property_reading": dc["docs"],
-                        "documents_matching_known_finding": dc["known_hits"],
                         "shipped_specs": store_stats, "counterexamples": len(findings)},
         "traces_validated_against_impl": ex["rows"] + dc["docs"],
         "trusted_extra": [
@@ -401,8 +401,9 @@ ASSUME = [
     "is exact and with the 1e-9 rounding-noise rule elsewhere)",
     "an expression is a token list: Lark's lexer and Earley parser are not modelled; that Lark returns the tree the model's parser "
     "returns (the grammar is unambiguous up to value) is tested on every generated case, the grammar itself is tied by translation",
-    "C15_apply_spec holds only as C15_apply_spec_partial (no '{{ }}' key in front of a dict/list): the full statement is refuted by "
-    "C15_apply_spec_refuted and listed as open finding C15-container-valued-key-not-interpreted",
+    "C15_apply_spec is the full statement without side condition; its right-hand side builds each result dict with Python's dict "
+    "semantics (equal interpreted keys merge, later value on the earlier place) and drops the entries listed under 'exclude'; "
+    "C15_apply_spec_distinct_keys gives the plain map when interpreted keys are pairwise different",
     "side-effect freedom of Spec.interpret is about mutation of Python objects: the model is purely functional (copy = identity), so the "
     "clause is carried by the harness (all shipped specs x shipped patch chains interpreted twice, repository dumps before/after)",
 ]
